@@ -30,7 +30,8 @@ const (
 	modBytes
 	modGhost
 	modSpare
-	modMem // all byte/scalar array memory
+	modMem  // all byte/scalar array memory
+	modType // every object of a named struct type (Name = pkg.Type)
 )
 
 type ModItem struct {
@@ -84,7 +85,9 @@ type Contract struct {
 	CRLFExempt    []string          // source texts of append calls that are exempt (reported as not covered)
 	FreshExcept   map[string]string // field path -> reason: not part of this method's fresh-equivalent claim
 	AppendsRaw    bool              // appends-raw: copies unneutralised bytes after its first parameter
+	DeadReturns   map[int]string    // source-order return index -> reason it is unreachable under the contracts
 	ReplayImports []string
+	ReplayDecls   []string // top-level declarations for the replay test file
 	ReplayGo      []string // hand-written reproductions (test bodies) tried when an obligation of this function fails
 	ghostRel      int
 	ghostNames    map[string]bool
@@ -290,7 +293,7 @@ var clauseKeywords = map[string]bool{
 	"lemma": true, "requires": true, "ensures": true, "top-ensures": true, "modifies": true, "allocates": true,
 	"panics": true, "abstract": true, "nosafety": true, "loop": true, "invariant": true, "top-invariant": true,
 	"decreases": true, "assert": true, "alias": true, "props": true, "recvnonnil": true, "ghostset": true,
-	"end": true, "opaque": true, "witness": true, "trusted-pure": true, "crlf-discipline": true, "crlf-exempt": true, "replay-go": true, "appends-raw": true, "fresh-override": true, "fresh-except": true, "macro": true, "ghostset-at-entry": true, "abstract-too": true, "replay-import": true, "noinline": true,
+	"end": true, "opaque": true, "witness": true, "trusted-pure": true, "crlf-discipline": true, "crlf-exempt": true, "replay-go": true, "appends-raw": true, "fresh-override": true, "fresh-except": true, "macro": true, "ghostset-at-entry": true, "abstract-too": true, "replay-import": true, "noinline": true, "replay-decl": true, "unreachable-return": true,
 }
 
 // parseContractFile reads the //@ lines of one file.
@@ -379,7 +382,7 @@ func (p *contractParser) line(t string, no int) error {
 			g.Init = "false"
 		}
 		if fs[0] == "field" {
-			if strings.Count(g.Name, ".") == 1 {
+			if strings.Count(g.Name, ".") == 1 && !strings.HasPrefix(g.Name, "*.") {
 				g.Name = p.pkg.Name() + "." + g.Name
 			}
 		}
@@ -500,6 +503,21 @@ func (p *contractParser) line(t string, no int) error {
 		c.AbstractToo = true // applied at call sites even in abstract-mode functions
 	case "appends-raw":
 		c.AppendsRaw = true
+	case "unreachable-return":
+		i := strings.Index(rest, "::")
+		if i < 0 {
+			return fmt.Errorf("unreachable-return needs: N :: reason")
+		}
+		n, err := strconv.Atoi(strings.TrimSpace(rest[:i]))
+		if err != nil {
+			return err
+		}
+		if c.DeadReturns == nil {
+			c.DeadReturns = map[int]string{}
+		}
+		c.DeadReturns[n] = strings.TrimSpace(rest[i+2:])
+	case "replay-decl":
+		c.ReplayDecls = append(c.ReplayDecls, rest)
 	case "replay-import":
 		c.ReplayImports = append(c.ReplayImports, strings.Trim(strings.TrimSpace(rest), "\""))
 	case "replay-go":
@@ -692,6 +710,10 @@ func (p *contractParser) modifies(rest string) (items []ModItem, all bool, err e
 		}
 		if part == "mem" {
 			items = append(items, ModItem{Kind: modMem, Src: part})
+			continue
+		}
+		if strings.HasPrefix(part, "alltype(") && strings.HasSuffix(part, ")") {
+			items = append(items, ModItem{Kind: modType, Name: strings.TrimSpace(part[8 : len(part)-1]), Src: part})
 			continue
 		}
 		switch {
